@@ -25,5 +25,33 @@ theorem sim_run (e1 : Elem α β σ) (e2 : Elem α β τ) (f : σ → τ)
     obtain ⟨h1, h2, h3⟩ := ih (e1.step s i)
     simp [accepted, delivered, accNow, delNow, hout, h1, h2, h3, hstep]
 
+/-- An element whose source tokens are those of another one "decorated" (`strip` removes the decoration), with
+    the same handshake and state: same accepted history, delivered history equal after stripping. -/
+theorem sim_strip {γ : Type} (e1 : Elem α γ σ) (e2 : Elem α β σ) (strip : Tok γ → Tok β)
+    (hf : ∀ s v t, ((e1.fwd s v t).1, strip (e1.fwd s v t).2) = e2.fwd s v t)
+    (hb : ∀ s v t r, e1.bwd s v t r = e2.bwd s v t r)
+    (hn : ∀ s v t r, e1.next s v t r = e2.next s v t r) :
+    ∀ (ins : List (In α)) (s : σ),
+      e1.accepted s ins = e2.accepted s ins ∧ (e1.delivered s ins).map strip = e2.delivered s ins ∧
+      e1.runFrom s ins = e2.runFrom s ins := by
+  intro ins
+  induction ins with
+  | nil => intro s; simp [accepted, delivered]
+  | cons i is ih =>
+    intro s
+    have hv : (e1.out s i).valid = (e2.out s i).valid := by
+      have := congrArg Prod.fst (hf s i.valid i.tok); simpa [out] using this
+    have ht : strip (e1.out s i).tok = (e2.out s i).tok := by
+      have := congrArg Prod.snd (hf s i.valid i.tok); simpa [out] using this
+    have hr : (e1.out s i).ready = (e2.out s i).ready := by simp [out, hb]
+    have hstep : e1.step s i = e2.step s i := by simp [step, hn]
+    obtain ⟨h1, h2, h3⟩ := ih (e2.step s i)
+    refine ⟨?_, ?_, ?_⟩
+    · simp [accepted, accNow, hr, hstep, h1]
+    · simp only [delivered, delNow, List.map_append, hstep, h2, hv]
+      congr 1
+      split <;> simp [ht]
+    · simp [hstep, h3]
+
 end Elem
 end Litex.Stream
